@@ -191,6 +191,7 @@ def _run_scripts(prop, tier, seed, rng, replay, problems, ev, cov, names, discha
     known = [k for k in load_known() if k.get("property") == pid and k.get("status", "known") == "known"]
     violations = []     # (family, lines, model_out, impl_out, oracle_out, note)
     known_hits = {}
+    cert_choice = [0]   # scripts whose answers differ only by the choice among equivalent high QCs
     transients = []
     disagreements = []
     evaluations = 0
@@ -235,6 +236,9 @@ def _run_scripts(prop, tier, seed, rng, replay, problems, ev, cov, names, discha
             for t, c in fam.tags(lines, io[k]).items():
                 dist[fam.name + ":" + t] = dist.get(fam.name + ":" + t, 0) + c
             d = core.first_diff(mo[k], io[k])
+            if d and core.modulo_certificate_choice(lines, mo[k], io[k]):
+                d = None
+                cert_choice[0] += 1
             ofail = None
             if oo[k] is not None:
                 for i, o in enumerate(oo[k]):
@@ -262,7 +266,7 @@ def _run_scripts(prop, tier, seed, rng, replay, problems, ev, cov, names, discha
                 i1, _ = core.run_driver(impl_bin, fam.name, [lines], 300)
                 if m1[0] is None or i1[0] is None:
                     return True
-                if core.first_diff(m1[0], i1[0]):
+                if core.first_diff(m1[0], i1[0]) and not core.modulo_certificate_choice(lines, m1[0], i1[0]):
                     return True
                 if fam.oracle:
                     o1 = run_oracle_bin(model_bin, fam, [lines], [i1[0]])[0]
@@ -344,6 +348,7 @@ def _run_scripts(prop, tier, seed, rng, replay, problems, ev, cov, names, discha
         "broken_ties": problems,
         "known_findings_reproduced": sorted(known_hits),
         "transients_not_reproduced": transients,
+        "equal_up_to_choice_among_equivalent_high_qcs": cert_choice[0],
     })
     ev["coverage"] = cov
     ev["assumptions"] = prop.assumptions + ([f"partial: {prop.partial}"] if prop.partial else [])
